@@ -135,7 +135,13 @@ func (NetH) Gen(prop string, seed uint64, tier string) *hx.Case {
 			}
 			for round := 0; round < 1+r.Intn(3); round++ {
 				noise()
-				switch r.Pick(30, 15, 20, 15, 20, 8, 8) {
+				switch r.Pick(30, 15, 20, 15, 20, 8, 8, 12) {
+				case 7: // plain transaction relay: a few transactions (some pay too little to be passed on), then the peer asks for them
+					for k := 0; k < 1+r.Intn(3); k++ {
+						add("tx", "valid")
+					}
+					noise()
+					add("getdata", "valid")
 				case 5: // two relayed transactions share a short id under the announcement's key
 					k := []string{"kit-tx1", "kit-tx2"}
 					if r.Chance(0.5) {
@@ -158,7 +164,17 @@ func (NetH) Gen(prop string, seed uint64, tier string) *hx.Case {
 					case 0:
 						slow("block", "blk-planned")
 					case 1:
-						slow("block", []string{"blk-planned", "blk-malleated"}[r.Intn(2)])
+						switch r.Intn(3) {
+						case 0:
+							slow("block", "blk-planned")
+						case 1:
+							slow("block", "blk-malleated")
+						default:
+							// a corrupt copy of the block (the node keeps waiting for a good one), then the same header
+							// over the transactions of another block
+							slow("block", "blk-malleated")
+							add("block", "blk-otherbody")
+						}
 					case 2:
 						slow("blocktxn", []string{"bt-valid", "bt-none", "bt-wrong"}[r.Intn(3)])
 					default:
@@ -334,6 +350,8 @@ type netRun struct {
 	kitBlk  *ledger.Block
 	side    [][32]byte // headers of dead side branches sent so far
 	planned []plannedBlock
+	lastSpent []byte     // the script spent by input 0 of the transaction someTx made last
+	relayed   [][32]byte // txids of the transactions made for this node so far
 	cver    map[int]int     // per peer: compact-block version announced with sendcmpct
 }
 
@@ -555,8 +573,14 @@ func (n *netRun) someTx(r *hx.Rng) *ledger.Tx {
 	if len(ins) == 0 {
 		return nil
 	}
-	t := n.m.MakeTx(n.model.Height+1, ins, 1+r.Intn(2), uint64(r.Range(500, 5000)), -1, ledger.COk)
+	fee := uint64(r.Range(500, 5000))
+	if r.Chance(0.4) {
+		fee = uint64(r.Range(2, 14)) // enough for the pool, too little to be relayed further: pooled but "blocked"
+	}
+	t := n.m.MakeTx(n.model.Height+1, ins, 1+r.Intn(2), fee, -1, ledger.COk)
 	n.made[t.ID()] = t
+	n.lastSpent = ins[0].Coin.Pk
+	n.relayed = append(n.relayed, t.ID())
 	return t
 }
 
@@ -733,6 +757,26 @@ func (n *netRun) convPayload(m *NetMsg, r *hx.Rng) (pl []byte, ok bool) {
 		}
 		raw[at+len(cbRaw)-4-1-r.Intn(32)] ^= 0x01 // a byte of the 32-byte nonce in front of the lock time
 		n.out.Probe("witness_malleated_copy_of_a_valid_block_sent", 1)
+		return raw, true
+	case "blk-otherbody":
+		// the planned block's header followed by the transactions of a sibling block (consistent among themselves:
+		// own witness commitment), i.e. a body that does not hash to the header's merkle root
+		cp := n.plan(p, r)
+		if cp == nil {
+			return nil, false
+		}
+		par := n.l.Nodes[cp.blk.H.Prev]
+		if par == nil {
+			return cp.blk.Bytes(), true
+		}
+		n.m.R = r
+		other, ok := n.m.Build(par, ledger.BlockOpts{NTx: 1 + r.Intn(3)})
+		if !ok || len(other.Txs) == 0 {
+			return cp.blk.Bytes(), true
+		}
+		raw := append([]byte{}, cp.blk.H.Bytes()...)
+		raw = append(raw, other.Bytes()[80:]...)
+		n.out.Probe("planned_header_over_another_blocks_transactions_sent", 1)
 		return raw, true
 	case "blk-rule":
 		// a well-formed block that breaks one header / structure / commitment rule (C05's catalogue)
@@ -993,6 +1037,22 @@ func (n *netRun) payload(m *NetMsg, r *hx.Rng) []byte {
 		}
 	case "inv", "getdata", "notfound":
 		pl = n.invPayload(r, r.Range(0, 20))
+		if m.Cmd == "getdata" && len(n.relayed) > 0 && r.Chance(0.5) {
+			// ask for transactions this node has been sent (pooled, pooled but not to be relayed, rejected, mined)
+			var w bytes.Buffer
+			k := 1 + r.Intn(4)
+			w.Write(vint(uint64(k)))
+			for i := 0; i < k; i++ {
+				binary.Write(&w, binary.LittleEndian, uint32([]uint32{1, 0x40000001}[r.Intn(2)]))
+				h := n.relayed[r.Intn(len(n.relayed))]
+				if r.Chance(0.6) {
+					h = n.relayed[len(n.relayed)-1-r.Intn(min(3, len(n.relayed)))] // one of the latest
+				}
+				w.Write(h[:])
+			}
+			pl = w.Bytes()
+			n.out.Probe("getdata_for_transactions_sent_earlier", 1)
+		}
 	case "getblocks", "getheaders":
 		pl = n.locator(r)
 	case "headers":
@@ -1328,7 +1388,7 @@ func (NetH) Run(t *testing.T, c *hx.Case) *hx.Outcome {
 			oc.X.Incomming = true
 			oc.Conn = conn
 			network.Mutex_net.Lock()
-			network.OpenCons[ad.UniqID()] = oc
+			oc.VerifAddToList()
 			network.InConsActive++
 			network.Mutex_net.Unlock()
 			n.conns = append(n.conns, conn)
@@ -1362,7 +1422,7 @@ func (NetH) Run(t *testing.T, c *hx.Case) *hx.Outcome {
 					viol("handler.lock-held", "peer %d: Run() ended holding %d lock(s)", p, len(g.Held))
 				}
 				network.Mutex_net.Lock()
-				delete(network.OpenCons, ad.UniqID())
+				oc.VerifDelFromList()
 				network.InConsActive--
 				network.Mutex_net.Unlock()
 			})
@@ -1419,6 +1479,23 @@ func (NetH) Run(t *testing.T, c *hx.Case) *hx.Outcome {
 			}
 		}
 		defer checkReplies()
+		defer func() {
+			txpool.TxMutex.Lock()
+			for _, t2s := range txpool.TransactionsToSend {
+				n.out.Probe("pooled_at_the_end", 1)
+				if t2s.Blocked != 0 {
+					n.out.Probe("pooled_but_not_relayed_at_the_end", 1)
+				}
+			}
+			txpool.TxMutex.Unlock()
+			common.CounterMutex.Lock()
+			for _, k := range []string{"TxRouteLowFee", "TxRouteDisabled", "TxRouteNotMined", "TxRouteTooBig", "GetdataTxSw"} {
+				if v := common.Counter[k]; v > 0 {
+					n.out.Probe("node_counter_"+k, int64(v))
+				}
+			}
+			common.CounterMutex.Unlock()
+		}()
 		// let everything be consumed, then hang up
 		for i := 0; i < 400 && !n.bad; i++ {
 			pending := 0
@@ -1476,7 +1553,7 @@ func (NetH) Run(t *testing.T, c *hx.Case) *hx.Outcome {
 				oc.X.Incomming = true
 				oc.Conn = conn
 				network.Mutex_net.Lock()
-				network.OpenCons[ad.UniqID()] = oc
+				oc.VerifAddToList()
 				network.Mutex_net.Unlock()
 				fin := false
 				simrt.Go(func() { oc.Run(); fin = true })
@@ -1633,5 +1710,17 @@ func (n *netRun) mainBlock(nb *network.BlockRcvd) {
 	if after := n.n.Ch.LastBlock(); after != before {
 		n.out.Probe("block_from_peer_connected", 1)
 		n.noteConnected(after.BlockHash.Hash)
+		// what the node has stored under that hash are the bytes of the block with that hash (judged for the blocks
+		// whose bytes were recorded when a conversation planned them, before it may have spoilt its own copy)
+		for k := range n.planned {
+			pb := &n.planned[k]
+			if pb.hash != after.BlockHash.Hash || n.bad {
+				continue
+			}
+			if d, _, e := n.n.Ch.Blocks.BlockGet(after.BlockHash); e == nil && !bytes.Equal(d, pb.raw) {
+				n.out.Violate("C18", "net.block-body-not-the-blocks", "the node connected block %s (height %d) received from a peer, but the %d bytes it stored are not those of the block with this hash (%d bytes): a body was accepted that does not belong to the header", hs(pb.hash), pb.height, len(d), len(pb.raw))
+				n.bad = true
+			}
+		}
 	}
 }
